@@ -136,22 +136,31 @@ impl TableBuilder for PostgresQueryBuilder {
                         column_def.name.prepare(sql.as_writer(), self.quote());
                         write!(sql, " TYPE ").unwrap();
                         self.prepare_column_type(column_type, sql);
+                        // USING is part of ALTER COLUMN .. TYPE, wherever it was declared
+                        for column_spec in column_def.spec.iter() {
+                            if let ColumnSpec::Using(expr) = column_spec {
+                                write!(sql, " USING ").unwrap();
+                                QueryBuilder::prepare_simple_expr(self, expr, sql);
+                            }
+                        }
                     }
                     let first = column_def.types.is_none();
 
                     column_def.spec.iter().fold(first, |first, column_spec| {
-                        if !first
-                            && !matches!(
-                                column_spec,
-                                ColumnSpec::AutoIncrement
-                                    | ColumnSpec::Generated { .. }
-                                    | ColumnSpec::Using(_)
-                            )
-                        {
+                        // specifications without an ALTER action write nothing, not even a separator
+                        if matches!(
+                            column_spec,
+                            ColumnSpec::AutoIncrement
+                                | ColumnSpec::Generated { .. }
+                                | ColumnSpec::Comment(_)
+                                | ColumnSpec::Using(_)
+                        ) {
+                            return first;
+                        }
+                        if !first {
                             write!(sql, ", ").unwrap();
                         }
                         match column_spec {
-                            ColumnSpec::AutoIncrement => {}
                             ColumnSpec::Null => {
                                 write!(sql, "ALTER COLUMN ").unwrap();
                                 column_def.name.prepare(sql.as_writer(), self.quote());
@@ -178,14 +187,15 @@ impl TableBuilder for PostgresQueryBuilder {
                                 column_def.name.prepare(sql.as_writer(), self.quote());
                                 write!(sql, ")").unwrap();
                             }
-                            ColumnSpec::Check(check) => self.prepare_check_constraint(check, sql),
-                            ColumnSpec::Generated { .. } => {}
-                            ColumnSpec::Extra(string) => write!(sql, "{string}").unwrap(),
-                            ColumnSpec::Comment(_) => {}
-                            ColumnSpec::Using(expr) => {
-                                write!(sql, " USING ").unwrap();
-                                QueryBuilder::prepare_simple_expr(self, expr, sql);
+                            ColumnSpec::Check(check) => {
+                                write!(sql, "ADD ").unwrap();
+                                self.prepare_check_constraint(check, sql)
                             }
+                            ColumnSpec::Extra(string) => write!(sql, "{string}").unwrap(),
+                            ColumnSpec::AutoIncrement
+                            | ColumnSpec::Generated { .. }
+                            | ColumnSpec::Comment(_)
+                            | ColumnSpec::Using(_) => {}
                         }
                         false
                     });
